@@ -32,6 +32,7 @@ Act(e) ==
       [] e.ev = "dimensionality" -> DimensionalityOf(e.form)
       [] e.ev = "unitof"         -> UnitOfQ(e.form, e.simp)
       [] e.ev = "strip"          -> Strip
+      [] e.ev = "mixnum"         -> MixNum(e.fn, e.numfirst)
       [] e.ev = "defunit"        -> DefaultUnit(e.reg)
       [] e.ev = "unitless"       -> UnitlessInForm(e.reg, e.form)
       [] e.ev = "derived"        -> Derived(e.reg, e.key)
@@ -67,6 +68,15 @@ ObsClause(e) ==
       [] e.ev = "unitof" -> LET x == E_UnitOfQ(e.form, e.simp) IN
              IF e.dim # x.unit.dim THEN "unit-dimension" ELSE IF ~Near(e.si, NOfScale(x.unit.scale)) THEN "unit-size"
              ELSE IF ~Near(e.mag, x.mag) THEN "simplified" ELSE ""
+      [] e.ev = "mixnum" -> LET x == E_MixNum(e.fn, e.numfirst) IN
+             IF e.raised # x.raise THEN (IF e.raised THEN "unexpected-raise" ELSE "missing-raise")
+             ELSE IF x.raise THEN ""
+             ELSE IF e.fn \in {"uniform", "uniform_tuple"}
+                  THEN (IF Len(e.si) # 2 \/ Len(e.mags) # 2 THEN "length"
+                        ELSE IF FirstBad(e.si, x.pure, 1) # 0 THEN "element" ELSE IF FirstBad(e.mags, x.mags, 1) # 0 THEN "common-unit" ELSE "")
+             ELSE IF e.fn = "to_unitless" THEN (IF Len(e.si) # 2 THEN "length" ELSE IF FirstBad(e.si, x.pure, 1) # 0 THEN "element" ELSE "")
+             ELSE IF e.fn = "unit_of" THEN (IF e.dim # x.unit.dim THEN "unit-dimension" ELSE IF ~Near(e.usi, NOfScale(x.unit.scale)) THEN "unit-size" ELSE "")
+             ELSE IF e.dim # ZeroDim THEN "dimensionality" ELSE ""
       [] e.ev = "strip" -> LET x == E_Strip IN
              IF e.raised # x.raise THEN (IF e.raised THEN "unexpected-raise" ELSE "missing-raise")
              ELSE IF ~x.raise /\ ~Near(e.x, x.x) THEN "magnitude" ELSE ""
